@@ -249,31 +249,36 @@ Section LfuBridge.
       unfold dl_access, dcell_of, l_deref. rewrite M. simpl. auto.
   Qed.
 
+  (* the source may look the element up in place, or in a private helper returning `element*` that the translator
+     inlines as an applied function (beta): nullptr / &e become None / Some node, the caller's test against nullptr and
+     `e->` (ptr_deref) reduce once the helper's result is a constructor *)
+  Ltac pred := cbn [bind opt_has_value ptr_deref negb].
+
   Lemma g_do_find_ok (s : lfdl K V) k pk now : ix_ok s -> req (g_do_find s k pk) (dl_find false s k pk now).
   Proof.
-    intros IX. unfold g_do_find, dl_find. found k s n A; [|simpl; auto].
+    intros IX. unfold g_do_find, dl_find. cbv beta. found k s n A; pred; [|simpl; auto].
     callee (find_prefix s n pk now (IX _ _ A)). unfold dcell_of.
-    destruct (l_deref (dl_list s) (It n)) as [d|]; cbn [bind].
-    - destruct (if negb pk then _ else _) as [s1|]; cbn [bind];
-        destruct (if pk then _ else _) as [s2|]; cbn [bind]; intros P; try contradiction; auto;
+    destruct (l_deref (dl_list s) (It n)) as [d|]; pred.
+    - destruct (if negb pk then _ else _) as [s1|]; pred;
+        destruct (if pk then _ else _) as [s2|]; pred; intros P; try contradiction; auto;
         destruct (l_deref (dl_list s2) (It n)) as [d2|]; cbn [bind] in *; try contradiction; auto.
       inversion P; subst. destruct (vget _ _ _); simpl; auto.
-    - destruct (if pk then _ else _) as [s2|]; cbn [bind]; intros P; auto.
+    - destruct (if pk then _ else _) as [s2|]; pred; intros P; auto.
       destruct (l_deref (dl_list s2) (It n)) as [d2|]; [contradiction|]. simpl; auto.
   Qed.
 
   Lemma g_do_find_with_use_count_ok (s : lfdl K V) k pk now :
     ix_ok s -> req (g_do_find_with_use_count s k pk) (dl_find_use false s k pk now).
   Proof.
-    intros IX. unfold g_do_find_with_use_count, dl_find_use. found k s n A; [|simpl; auto].
+    intros IX. unfold g_do_find_with_use_count, dl_find_use. cbv beta. found k s n A; pred; [|simpl; auto].
     callee (find_prefix s n pk now (IX _ _ A)). unfold dcell_of.
-    destruct (l_deref (dl_list s) (It n)) as [d|]; cbn [bind].
-    - destruct (if negb pk then _ else _) as [s1|]; cbn [bind];
-        destruct (if pk then _ else _) as [s2|]; cbn [bind]; intros P; try contradiction; auto;
+    destruct (l_deref (dl_list s) (It n)) as [d|]; pred.
+    - destruct (if negb pk then _ else _) as [s1|]; pred;
+        destruct (if pk then _ else _) as [s2|]; pred; intros P; try contradiction; auto;
         destruct (l_deref (dl_list s2) (It n)) as [d2|]; cbn [bind] in *; try contradiction; auto.
-      inversion P; subst. destruct (vget _ _ _) as [e|]; cbn [bind]; [|exact I].
+      inversion P; subst. destruct (vget _ _ _) as [e|]; pred; [|exact I].
       destruct (mm_deref _ _); simpl; auto.
-    - destruct (if pk then _ else _) as [s2|]; cbn [bind]; intros P; auto.
+    - destruct (if pk then _ else _) as [s2|]; pred; intros P; auto.
       destruct (l_deref (dl_list s2) (It n)) as [d2|]; [contradiction|]. simpl; auto.
   Qed.
 
